@@ -320,14 +320,31 @@ def run(ctx: Ctx) -> None:
     ctx.ob("C05-4", "G1", vp, "window_size > min latency raises", okw,
            "a window larger than the smallest declared link latency is rejected (strictly-greater test against min over all links)", node=vp.node)
     ws = stmts_matching(pinit, "self._window_size = _E_")
-    okd = any(unparse(b["_E_"]).replace(" ", "") == "window_sizeifwindow_sizeisnotNoneelsemin_link_latency" for _, b in ws)
-    ml = stmts_matching(pinit, "min_link_latency = _E_")
-    okd = okd and any(_is_min_over(b["_E_"], "link.min_latency", "self._links") for _, b in ml)
+    sd_p = single_defs(pinit)
+    pff = ctx.flow(pinit)
+
+    def _min_lat(e_):
+        return _is_min_over(expand(e_, sd_p), "link.min_latency", "self._links")
+
+    def _default_of(e_, node_):
+        """the value this write gives the window when no window_size was passed: an expression, or None if the write is not reached then"""
+        if isinstance(e_, ast.IfExp) and unparse(e_.test).replace(" ", "") == "window_sizeisnotNone":
+            return e_.orelse
+        if isinstance(e_, ast.IfExp) and unparse(e_.test).replace(" ", "") == "window_sizeisNone":
+            return e_.body
+        have = set(pff.facts_at(node_).keys())
+        if ("isnot", "window_size", "None") in have:
+            return None
+        return e_
+    # (written as one conditional expression, or as an if / elif / else chain over `self._links` and `window_size`)
+    defaults = [d_ for st_, b_ in ws for d_ in [_default_of(b_["_E_"], node_of(pff.cfg, st_))] if d_ is not None and not (isinstance(d_, ast.Constant) and d_.value == 0.0)]
+    okd = bool(defaults) and all(_min_lat(d_) for d_ in defaults)
     ctx.ob("C05-4", "G7", pinit, "default window = min link latency", okd, "without an explicit window the barrier window is the minimum link latency")
     # every write of the window size is the validated argument or the minimum link latency (never something larger)
     for st_, b_ in ws:
         txt = unparse(b_["_E_"]).replace(" ", "")
-        allowed = txt in ("window_sizeifwindow_sizeisnotNoneelsemin_link_latency", "0.0", "min_link_latency", "window_size") or (
+        allowed = txt in ("window_sizeifwindow_sizeisnotNoneelsemin_link_latency", "0.0", "min_link_latency", "window_size") or _min_lat(b_["_E_"]) or (
+            isinstance(b_["_E_"], ast.IfExp) and all(unparse(x_).replace(" ", "") in ("window_size", "0.0") or _min_lat(x_) for x_ in (b_["_E_"].body, b_["_E_"].orelse))) or (
             isinstance(b_["_E_"], ast.Call) and path_of(b_["_E_"].func) == "min" and any(path_of(a) == "min_link_latency" for a in b_["_E_"].args))
         ctx.ob("C05-4", "G6", pinit, st_, allowed, f"the barrier window is only ever set to the validated window_size or (at most) the minimum link latency — `{norm_stmt(st_)}`"
                + ("" if allowed else ": this value was never validated against the smallest link latency"))
@@ -401,7 +418,15 @@ def run(ctx: Ctx) -> None:
     ctx.ob("C05-5", "G7", run_, "all partitions get the same window end", len(subs) == 1 and sub_args == [["self._run_partition_window", sub_keys[0], "window_end"]],
            f"every partition runs to the same barrier time (submit args {sub_args})", node=subs[0] if subs else run_.node)
     clamp = [st for st in walk_stmts(run_.node.body) if isinstance(st, ast.If) and unparse(st.test).replace(" ", "") == "window_end_s>end_s"]
-    ctx.ob("C05-5", "G1", run_, "window end clamped to end_time", len(clamp) == 1 and norm_stmt(clamp[0].body[0]) == "window_end_s = end_s",
+    clamp_ok = len(clamp) == 1 and norm_stmt(clamp[0].body[0]) == "window_end_s = end_s"
+    if not clamp:
+        # the same clamp written with min(): `window_end_s = min(window_end_s, <end_time in seconds>)`
+        sd_r = single_defs(run_)
+        clamp = [st for st in walk_stmts(run_.node.body) if isinstance(st, ast.Assign) and path_of(st.targets[0]) == "window_end_s" and isinstance(st.value, ast.Call)
+                 and path_of(st.value.func) == "min" and len(st.value.args) == 2 and not st.value.keywords and any(path_of(a) == "window_end_s" for a in st.value.args)
+                 and any(unparse(expand(a, sd_r)).replace(" ", "") == "self._end_time.to_seconds()" for a in st.value.args)]
+        clamp_ok = len(clamp) == 1
+    ctx.ob("C05-5", "G1", run_, "window end clamped to end_time", clamp_ok,
            "the last window is clamped to end_time", node=clamp[0] if clamp else run_.node)
     rpw = prog.func(COORD, "WindowedCoordinator._run_partition_window")
     c2 = [c for c in calls_in(rpw.node) if isinstance(c.func, ast.Attribute) and c.func.attr == "_run_window"]
